@@ -314,13 +314,13 @@ def dotted(node):
 _STANDALONE = {}
 
 
-def standalone_dump(value, key=None):
-    if key is not None and key in _STANDALONE:
-        return _STANDALONE[key]
+def standalone_dump(value, key=None, sort=False):
+    if key is not None and (key, sort) in _STANDALONE:
+        return _STANDALONE[(key, sort)]
     with common.caught_warnings():
-        d = ast.dump(ast.parse('(' + pp.pformat(value, width=10000) + '\n)', mode='eval').body)
+        d = ast.dump(ast.parse('(' + pp.pformat(value, width=10000, sort_dict_keys=sort) + '\n)', mode='eval').body)
     if key is not None:
-        _STANDALONE[key] = d
+        _STANDALONE[(key, sort)] = d
     return d
 
 
@@ -330,9 +330,12 @@ def check_output(v, ctx, cfg, callee, pos, kws, expected_obj, ns, equal):
     width, ribbon, indent = cfg
     with common.caught_warnings() as cw:
         try:
-            # max_seq_len / sort_dict_keys are passed with non-default values (they do not truncate or reorder anything
-            # in this domain) so that the run-time contract of the context family can see a printer that loses them
-            out = pp.pformat(w, width=width, ribbon_width=ribbon, indent=indent, max_seq_len=997, sort_dict_keys=False)
+            # max_seq_len is passed with a non-default value (it truncates nothing in this domain) so that the run-time contract of the
+            # context family can see a printer that loses it; sort_dict_keys is ON for the odd widths: the keyword arguments of a call
+            # keep the order given whatever the setting says about dict keys (each argument is compared with its stand-alone print
+            # under the same setting)
+            sort = bool(width % 2)
+            out = pp.pformat(w, width=width, ribbon_width=ribbon, indent=indent, max_seq_len=997, sort_dict_keys=sort)
         except Exception as e:
             return ('pformat-raised', '%s: %s' % (type(e).__name__, e), 'pformat returns a str', '')
     exp_text = '%s(%s)' % (callee, ', '.join(['<arg>'] * len(pos) + ['%s=<arg>' % k for k, _v, _c in kws]))
@@ -356,11 +359,11 @@ def check_output(v, ctx, cfg, callee, pos, kws, expected_obj, ns, equal):
     if [k.arg for k in node.keywords] != [k for k, _v, _c in kws]:
         return ('wrong-keywords', '%s (keywords %s)' % (out, [k.arg for k in node.keywords]), exp_text, out)
     for i, (sub, (val, ck)) in enumerate(zip(node.args, pos)):
-        if ast.dump(sub) != standalone_dump(val, ck):
+        if ast.dump(sub) != standalone_dump(val, ck, sort):
             return ('argument-differs', '%s (positional %d: %s)' % (out, i, ast.unparse(sub)),
                     'argument printed as on its own: ' + pp.pformat(val, width=10000), out)
     for kwn, (name, val, ck) in zip(node.keywords, kws):
-        if ast.dump(kwn.value) != standalone_dump(val, ck):
+        if ast.dump(kwn.value) != standalone_dump(val, ck, sort):
             return ('argument-differs', '%s (keyword %s: %s)' % (out, name, ast.unparse(kwn.value)),
                     'argument printed as on its own: ' + pp.pformat(val, width=10000), out)
     exp_eval = 'evaluates to ' + common.shrink_repr(expected_obj, 200)
